@@ -244,6 +244,95 @@ def run(rep: core.Report):
     rep.note("Not decided: distinctness of the points modulo reciprocal lattice vectors (number theory of the SNF), numeric equality of a round trip, Phonopy.ph2ph.")
 
 
+
+def _preserved(expr, env, rel, depth=0):
+    """'same' / 'changed' / 'other': is the value of expr the caller's array up to copying and dtype conversion?"""
+    if isinstance(expr, ast.Name):
+        return env.get(expr.id, "other")
+    if isinstance(expr, ast.Call):
+        f = core.src(expr.func)
+        if f in ("np.array", "np.asarray", "np.ascontiguousarray", "np.copy") and expr.args:
+            return _preserved(expr.args[0], env, rel, depth)
+        if isinstance(expr.func, ast.Attribute) and expr.func.attr in ("copy", "astype") :
+            return _preserved(expr.func.value, env, rel, depth)
+        if isinstance(expr.func, ast.Name) and depth < 2:
+            # a function of the same module: what does it return for this argument?
+            try:
+                callee = core.find_def(rel, expr.func.id)
+            except AnalysisError:
+                callee = None
+            if isinstance(callee, ast.FunctionDef) and expr.args:
+                a0 = _preserved(expr.args[0], env, rel, depth)
+                if a0 == "other":
+                    return "other"
+                cenv = {callee.args.args[0].arg: a0} if callee.args.args else {}
+                return _flow(callee, cenv, rel, depth + 1)
+        touched = [_preserved(a, env, rel, depth) for a in expr.args]
+        return "changed" if any(t in ("same", "changed") for t in touched) else "other"
+    if isinstance(expr, (ast.BinOp, ast.UnaryOp, ast.Compare, ast.Subscript)):
+        kids = [_preserved(x, env, rel, depth) for x in ast.iter_child_nodes(expr) if isinstance(x, ast.expr)]
+        return "changed" if any(t in ("same", "changed") for t in kids) else "other"
+    return "other"
+
+
+def _flow(fn, env, rel, depth):
+    """status of the value a function returns, its first parameter being the caller's array"""
+    env = dict(env)
+    out = []
+    for st in sorted((x for x in ast.walk(fn) if isinstance(x, (ast.Assign, ast.AugAssign, ast.Return))), key=lambda x: (x.lineno, x.col_offset)):
+        if isinstance(st, ast.Assign) and len(st.targets) == 1 and isinstance(st.targets[0], ast.Name):
+            env[st.targets[0].id] = _preserved(st.value, env, rel, depth)
+        elif isinstance(st, ast.AugAssign) and isinstance(st.target, ast.Name) and env.get(st.target.id) in ("same", "changed"):
+            env[st.target.id] = "changed"
+        elif isinstance(st, ast.Return) and st.value is not None:
+            out.append(_preserved(st.value, env, rel, depth))
+    if not out:
+        return "other"
+    return "changed" if "changed" in out else ("same" if all(o == "same" for o in out) else "other")
+
+
+def _r06f(rep):
+    """The q-points a caller supplies are the points its dynamical matrices belong to: they are stored as given."""
+    rep.rule("R06f", "representatives are kept: commensurate points supplied by the caller (constructor argument, setter) are stored as given (copy / dtype conversion only), because the dynamical matrices supplied next belong to exactly these q and the phases e^{-2 pi i q.s} are not periodic in q for vectors between different basis atoms", 2)
+    cls = core.find_def(D2F, "DynmatToForceConstants")
+    setters = [m for m in cls.body if isinstance(m, ast.FunctionDef) and m.name == "commensurate_points" and core._is_property_setter(m)]
+    if len(setters) != 1:
+        raise AnalysisError("R06f: setter DynmatToForceConstants.commensurate_points vanished")
+    st_fn = setters[0]
+    par = st_fn.args.args[1].arg
+    stores = [a for a in ast.walk(st_fn) if isinstance(a, ast.Assign) and core.src(a.targets[0]) == "self._commensurate_points"]
+    if len(stores) != 1:
+        raise AnalysisError("R06f: the setter no longer stores self._commensurate_points exactly once")
+    env = {par: "same"}
+    for a in sorted((x for x in ast.walk(st_fn) if isinstance(x, ast.Assign) and isinstance(x.targets[0], ast.Name)), key=lambda x: x.lineno):
+        env[a.targets[0].id] = _preserved(a.value, env, D2F)
+    stat = _preserved(stores[0].value, env, D2F)
+    if stat == "other":
+        raise AnalysisError(f"R06f: cannot tell what the setter stores ({core.src(stores[0].value)})")
+    rep.instance("R06f", D2F, "DynmatToForceConstants.commensurate_points (setter)", core.norm(core.src(stores[0]), 90), stat == "same",
+                 "the setter changes the points it is given (reduction into the unit cell, arithmetic): the stored point is q+G while the dynamical matrix set next is D(q); for a primitive cell with two or more atoms the inverse transform then uses the wrong phase e^{-2 pi i G.(r_j - r_i)}", line=stores[0].lineno)
+    init = core.find_def(D2F, "DynmatToForceConstants.__init__")
+    ipar = [a.arg for a in init.args.args + init.args.kwonlyargs if a.arg == "commensurate_points"]
+    if not ipar:
+        raise AnalysisError("R06f: constructor parameter commensurate_points vanished")
+    sites = [a for a in ast.walk(init) if isinstance(a, ast.Assign) and core.src(a.targets[0]) in ("self._commensurate_points", "self.commensurate_points") and "commensurate_points" in {n.id for n in ast.walk(a.value) if isinstance(n, ast.Name)}]
+    if not sites:
+        raise AnalysisError("R06f: the constructor no longer stores its commensurate_points argument")
+    for a in sites:
+        stat = _preserved(a.value, {"commensurate_points": "same"}, D2F)
+        through_setter = core.src(a.targets[0]) == "self.commensurate_points"
+        rep.instance("R06f", D2F, "DynmatToForceConstants.__init__", core.norm(core.src(a), 90) + (" (through the setter)" if through_setter else ""), stat == "same",
+                     "the constructor changes the points it is given before storing them", line=a.lineno)
+
+
+_run_main = run
+
+
+def run(rep: core.Report):
+    _run_main(rep)
+    _r06f(rep)
+
+
 def selftest():
     V = []
     b = lambda name, file, old, new, rule, expect="", **kw: V.append(dict(name=name, kind="break", file=file, old=old, new=new, rule=rule, expect=expect, **kw))
@@ -258,4 +347,6 @@ def selftest():
     b("force-constant buffer allocated once", D2F, "        self._fc = np.zeros(self._fc_shape, dtype=\"double\", order=\"C\")\n        self._inverse_transformation(lang=lang)", "        if self._fc is None:\n            self._fc = np.zeros(self._fc_shape, dtype=\"double\", order=\"C\")\n        self._inverse_transformation(lang=lang)", "R06e", "run")
     n("inverse coefficient reordered", DYN, "                    (dm[adrs][0] * cos_phase - dm[adrs][1] * sin_phase) * coef;", "                    coef * (cos_phase * dm[adrs][0] - sin_phase * dm[adrs][1]);")
     n("python inverse coefficient reordered", D2F, "                coef = np.sqrt(m[p_i] * m[p_j]) / N", "                coef = np.sqrt(m[p_j] * m[p_i]) / N")
+    b("setter folds the caller's points into the unit cell", D2F, '        self._commensurate_points = np.array(comm_points, dtype="double", order="C")', '        pts = np.array(comm_points, dtype="double", order="C")\n        self._commensurate_points = pts - np.floor(pts)', "R06f", "setter")
+    n("setter converts through asarray and copy", D2F, '        self._commensurate_points = np.array(comm_points, dtype="double", order="C")', '        pts = np.asarray(comm_points, dtype="double")\n        self._commensurate_points = np.ascontiguousarray(pts).copy()')
     return V
